@@ -19,7 +19,8 @@ EXPLANATION = (
     'decision table of the CHOOSE guard at 0, 1, n, n+1 (raises #VALUE! outside 1..n, returns values[i-1] inside), MATCH returns '
     'position+1, every value returned by VLOOKUP is dominated by the not-found (#N/A) and column-range guards; (C15.4) '
     'COUNTIF/COUNTIFS/SUMIF/SUMIFS apply the check closure to every cell (comprehension over the whole range, no filter, criteria '
-    'combined with all()).')
+    'combined with all()).'
+    ' (C15.5) parse_criteria(criterion)(cell value) on 16 witness criteria x cell values through the real operator wrappers and comparison methods: six operators, plain values, texts case-insensitively also for <>.')
 NOT_DECIDED = 'agreement with a linear scan on concrete data; approximate-match search on sorted data'
 TRUSTED = ['pandas set_index/loc semantics for VLOOKUP']
 
